@@ -392,6 +392,10 @@ def _replay_writers(stem, vals):
                 d2 = F.parse_lammps_data(s.dump('atom_data', units=units, float_format='%.13e', return_info=False))
                 if not _np.allclose(_np.array([d2['xlo'], d2['xhi'], d2['xy'], d2['xz'], d2['yz']]) * Lu, [s.box.xlo, s.box.xhi, xy, xz, yz], atol=1e-9):
                     msgs.append('data file box (%s units) differs' % units)
+        s3 = am.System(atoms=am.Atoms(atype=[2, 1, 2], pos=[[0, 0, 0], [.5, .5, .5], [.25, .25, .25]]), box=am.Box.cubic(3.0), scale=True, symbols=['Al', 'Cu', 'Ni'])
+        p3 = F.parse_poscar(s3.dump('poscar'))
+        if p3['symbols'] != ['Al', 'Cu', 'Ni'] or p3['counts'] != [1, 2, 0]:
+            msgs.append('POSCAR of a system with symbols Al Cu Ni and atom types [2,1,2]: species %r, counts %r (expected one count per species: [1, 2, 0])' % (p3['symbols'], p3['counts']))
     except Exception as e:
         msgs.append('raised %s: %s' % (type(e).__name__, e))
     return (len(msgs) > 0, '; '.join(msgs[:3]) if msgs else 'float replay of the writer header contracts found no disagreement')
@@ -450,6 +454,14 @@ def poscar_writer(E, L):
                     E.prove(tag + '.cartesian_over_scale[%d,%d]' % (r, j), tk.value(toks[j]) * scale == pos[k, j])
                 else:
                     E.prove(tag + '.relative_coordinate[%d,%d]' % (r, j), tk.value(toks[j]) == s[k, j])
+    # a type with no atoms (in the middle or at the end of the type list) still gets its count, so that species and counts lines agree
+    for atype, syms, counts in (((1, 3, 3), ['Al', 'Cu', 'Ni'], ['1', '0', '2']), ((2, 1, 2), ['Al', 'Cu', 'Ni'], ['1', '2', '0']), ((1, 1, 1), ['Al', 'Cu'], ['3', '0'])):
+        system, V, o, s, pos = _sym_system(E, L, atype=atype)
+        system.symbols = syms
+        with Tokens() as tk:
+            text = mod.dump(system, float_format='%s')
+        lines = text.split('\n')
+        E.prove('poscar.writer.counts_for_every_type[%s/%d]' % (''.join(map(str, atype)), len(syms)), lines[5].split() == syms and lines[6].split() == counts and len(lines) == 11)
     # refusals
     system, V, o, s, pos = _sym_system(E, L)
     for kw, nm in ((dict(header='two\nlines'), 'multiline_header'), (dict(symbols=['Al']), 'wrong_symbol_count')):
